@@ -30,6 +30,7 @@ EXPLANATION = (
     "each source selected by presence (is not None / KeyError), never by truthiness; R11 an accepted download stores an "
     "immutable copy of exactly the transferred bytes; R12 every segmented transfer starts from a fresh buffer and toggle 0; R13 abort responses echo the multiplexer of the request: every handler records it before anything that can abort (shared with C06.R3); R15 ODVariable.__len__ per data type (shared with C04.R5); R16 members of arrays that are described once are served like described ones (shared with C08.R11); R14 structural assumptions shared by all properties: no class-level mutable object is mutated in place by instances, no method re-runs the constructor, logging statements cannot raise (typed eager formatting, divisions), no mutable default argument is kept or mutated, no new truth-value test of a None-able number, a look-up memory the pinned tree does not have is keyed by all its inputs (arithmetic keys folded over a grid of addresses) and, on the serving side, emptied somewhere."
     ' R12 also: whatever a segment handler advances is set by the initiate handler of that direction; R14 includes the lock clauses (no callback under a plain Lock, no SDO exchange while holding a lock a receive callback takes).'
+    ' R11 also: nothing that can refuse the write (a write callback) runs after the store; R12 also: per-transfer memory one initiate handler resets and the other direction consults is reset by both.'
 )
 ASSUMPTIONS = [
     "not decided: values for generated object dictionaries and request histories; read/write callbacks are opaque",
